@@ -39,6 +39,14 @@ CLAIMED = {
           "Each of the 45 pure builtins is called ~2*10^4 (quick) times with boundary-biased integers and generated rope shapes; outcome must equal the reference model, or be a clean error exactly where the model says the argument is outside the documented domain; panics are caught and reported. Exploration only.",
           "Trusts the host reference models (written from the builtins' doc comments; unspecified corners accept either outcome and are listed in the evidence assumptions). Built with overflow-checks + debug-assertions.",
           "DESIGN.md §4 C12"),
+  "C14": ("proptest-generated resource-lifecycle scenarios (open / use / hand over by message, spawn argument, capture or result / stale copies / explicit close / owner exit / failure) x schedules in the deterministic simulator with an instrumented in-memory EffectBackend (deferred completions); oracle: ownership model replayed over the backend's call log",
+          "Each scenario opens 1-3 mock files in generated processes and moves the handles around; the backend logs every open/use/close with the calling process. The log is judged against an ownership model: a resource is used only by its current owner, it is closed exactly once, after its owner finished and never while the owner is live (unless explicitly closed), every handle is closed by the end, and a non-owner's attempt fails with a runtime error in that process only. Exploration only.",
+          "Trusts the simulator's transport model and the mock backend's log. Two recorded findings (a resource whose owner is never awaited is not closed; a stale handle used after its resource was closed reaches the backend) are excluded by construction and re-witnessed each run.",
+          "DESIGN.md §4 C14"),
+  "C15": ("proptest-generated failure scenarios (one process fails at a generated point by one of several runtime errors; early, late, cross-worker and chained awaiters; bystanders exchanging messages with it; ill-behaved programs) x schedules in the deterministic simulator; oracle: per-process expected outcome (same error for every awaiter, normal result for every bystander) + no panic / internal error from any worker or environment step",
+          "Every scenario is run under a baseline and generated configurations (1-5 workers, quantum 1..1000, partial-visibility interleavings); each awaiter of the failing process must fail with the identical error, each process that does not await it must reach its model result, and no step may panic, return Err or leave the system idle with a blocked process. Exploration only.",
+          "Trusts the simulator's transport model; worker/environment steps run under catch_unwind with debug assertions on. Scenarios terminate by construction.",
+          "DESIGN.md §4 C15"),
   # id: (technique, level text, level note, design_ref)
   "C18": ("proptest-generated inputs + corpus mutation (prefix/token delete/dup/subst/transpose/wide-char) + bracket nests to depth 100; oracle: no panic, located error, deterministic production budget",
           "Generated-input search over front-end inputs: every run parses ~10^5 generated/mutated texts and compiles the accepted ones, checking no panic, error position inside the input on a char boundary with consistent line/column, and a polynomial production budget via hook H5. Exploration only: absence is not established.",
